@@ -170,6 +170,12 @@ NoOverRead    == \A x \in XS : (Clean(x) /\ stalled[x]) => ref[x].framing = "clo
 \* must not carry the next request - fresh[x + 1]: exchange x + 1 went out on a connection opened for it.)
 Persist       == \A x \in XS : (Clean(x) /\ Ok(x) /\ ~connClosed[x] /\ leftover[x] > 0)
                                    => (x + 1 \in XS /\ Done(x + 1) => fresh[x + 1])
+\* a connection is kept only after the WHOLE message was consumed (its last line included): what the client left
+\* unread of a message it declared complete would be read as the beginning of the next response.  (Octets not yet
+\* received count as unread here: they belong to the message, not to a surplus the client cannot know about.)
+Consumed(x)   == SentLen(msgs[x]) - leftover[x] - unseen[x]
+WholeMessage  == \A x \in XS : (Clean(x) /\ Ok(x) /\ ~connClosed[x] /\ ref[x].framing # "close")
+                                   => Consumed(x) >= Len(ref[x].ibytes) + Len(ref[x].bytes)
 PersistStrict == \A x \in XS : (Ok(x) /\ ~connClosed[x]) => (leftover[x] = 0 /\ unseen[x] = 0)
 NoHang        == \A x \in XS : outcome[x] # "hang"
 
